@@ -1,10 +1,18 @@
 (* Prop_C17.v — property theorems for C17, and nothing else: each statement is closed
    by `exact <lemma>` and followed by Print Assumptions. *)
 From Dig Require Import Base Sig State Graph GraphProofs Register Resolve Run Spec Check
-  ErrTable Err ErrTableCheck P_Events.
+  ErrTable Err ErrTableCheck P_Events P_Dry.
 
 (* ---- C17: nothing executes in a dry container ---- *)
 Theorem C17_dry_silent_partial : forall cfg b du h, cfg_dry cfg = true ->
   chk_C17_dry h (map obs_of (run cfg b du h)) = [].
 Proof. exact P_Events.C17_dry_checker. Qed.
 Print Assumptions C17_dry_silent_partial.
+
+(* ---- C17: the dry container reports exactly the verdicts of a normal
+        container whose user functions all succeed ---- *)
+Theorem C17_same_verdicts : forall cfg b b_ok du h,
+  cfg_dry cfg = false -> all_ok b_ok ->
+  map so_verdict (run (dry_of cfg) b du h) = map so_verdict (run cfg b_ok du h).
+Proof. exact P_Dry.C17_same_verdicts_full. Qed.
+Print Assumptions C17_same_verdicts.
